@@ -29,7 +29,7 @@ try:
     if not res["applies"]:
         res["apply_error"] = r.stderr[-400:]
     else:
-        a = sh("cd /repo && timeout 300 /venv/bin/python %s/demo.py" % src)
+        a = sh("cd /repo && timeout %s /venv/bin/python %s/demo.py" % (os.environ.get("SEED_DEMO_TIMEOUT", "300"), src))
         b = sh("cd %s && timeout 300 /venv/bin/python %s/demo.py" % (wt, src))
         res["demo_unchanged_exit"] = a.returncode
         res["demo_changed_exit"] = b.returncode
